@@ -42,6 +42,8 @@ func main() {
 	trace := flag.Bool("trace", false, "trace calls")
 	noprop := flag.Bool("no-propagator", false, "disable the byte-domain propagator (every branch goes to the solver)")
 	smtTrace := flag.String("smt-trace", "", "write solver dialogue to <prefix>.<worker>.smt2")
+	progress := flag.Int("progress", 0, "print progress to stderr every N seconds")
+	notab := flag.Bool("no-tabulate", false, "do not tabulate wide mul/div nodes over small-domain variables")
 	pattern := flag.String("pattern", "./klog/...", "package pattern to load")
 	selftest := flag.Int("selftest-simp", 0, "run N rounds of the simplifier self-test and exit")
 	flag.Parse()
@@ -136,6 +138,8 @@ func main() {
 	eng.Seed = *seed
 	eng.Trace = *trace
 	eng.NoPropagator = *noprop
+	eng.NoTabulate = *notab
+	eng.Progress = *progress
 	eng.SMTTrace = *smtTrace
 	res, err := eng.Run(jobs)
 	if err != nil {
